@@ -7,9 +7,11 @@ Oracle (independent of the model): exact Fraction inverse, numpy.linalg.inv, the
 |X A - I| <= 64 n cond(A) eps, purity of the argument, the documented exceptions; degenerate
 point sets make the fitters raise.
 """
+import math
+
 import numpy as np
 
-from ..common import Fraction, q2s, f2x, x2f, s2q, to_fraction
+from ..common import Fraction, q2s, f2x, x2f, s2q, to_fraction, guard_ratio, guard_expect, harmonic_weights
 
 ID = 'C17'
 RULE = ('matrices of order 1..8 drawn from 9 families (random, small-integer, permutation-like, '
@@ -324,6 +326,7 @@ def degenerate_fits(ctx):
                                        'raising SingularMatrixError (F13 has returned)'})
     except linearfit.SingularMatrixError:
         pass
+    mlines, mpend = [], []
     for _ in range(ctx.n(40, 600)):
         geom = rng.choice(['general', 'rscale', 'rshift', 'shift'])
         kind = rng.choice(['collinear', 'coincident', 'toofew'])
@@ -356,6 +359,15 @@ def degenerate_fits(ctx):
         except Exception as e:
             res = (type(e).__name__, None)
         ctx.case(case, nontrivial=True, branch='degenerate:%s:%s' % (geom, kind))
+        if geom == 'general':
+            # the model the theorems `collinear_general_singular` / `coincident_general_singular` /
+            # `too_few_points_general` speak about (TW.fitGeneral with the collinearity guard, exact
+            # rationals, driver op `fit Q general`) must refuse the same input in the same way
+            toks = ['fit', 'Q', 'general', str(len(uv)), '0']
+            for (x, y), (u, v) in zip(xy.tolist(), uv.tolist()):
+                toks += [q2s(to_fraction(t)) for t in (x, y, u, v)]
+            mlines.append(' '.join(toks))
+            mpend.append((case, res[0]))
         if kind == 'toofew':
             if res[0] != 'NotEnoughPointsError':
                 ctx.oracle_fail(case, {'what': 'too few points did not raise NotEnoughPointsError', 'got': res[0]})
@@ -386,6 +398,62 @@ def degenerate_fits(ctx):
                     ctx.oracle_fail(case, {'what': 'non-finite parameters returned', 'got': [float(v) for v in vals]})
             elif res[0] not in ('SingularMatrixError', 'NotEnoughPointsError'):
                 ctx.oracle_fail(case, {'what': 'unexpected exception', 'got': res[0]})
+    names = {'err singular': 'SingularMatrixError', 'err notEnoughPoints': 'NotEnoughPointsError'}
+    for out, (case, got) in zip(ctx.driver(mlines), mpend):
+        mk = names.get(' '.join(out.split()[:2]), 'ok' if out.startswith('ok') else out[:40])
+        if mk != got:
+            ctx.disagree(case, {'op': 'fit', 'mode': 'Q', 'model': mk, 'impl': got})
+
+
+def collinear_generic_fits(ctx):
+    """collinear point sets whose evaluation in floating point is NOT exact: integer points on lines of generic
+    direction with inexact means, also multiplied by non-dyadic factors or rotated (then collinear to the last
+    bit of the doubles only), unweighted and weighted.  Whenever the quantity tested by the collinearity guard of
+    fit_general, computed exactly from the doubles, is below 2^-52/64, fit_general and
+    iter_linear_fit(fitgeom='general') must raise SingularMatrixError: a guard whose threshold is (much)
+    smaller than the rounding noise of cuu*cvv - cuv^2 lets about half of these sets through"""
+    from tweakwcs import linearfit
+    rng = ctx.rng
+    for _ in range(ctx.n(150, 2500)):
+        n = rng.randint(3, 12)
+        d = rng.choice([(3, 7), (5, -2), (7, 3), (1, 3), (2, -5), (11, 4), (1, 1), (1, 0), (0, 1)])
+        o = (rng.randint(-60, 60), rng.randint(-60, 60))
+        ts = rng.sample(range(-40, 41), n)
+        pts = np.array([[o[0] + t * d[0], o[1] + t * d[1]] for t in ts], dtype=float)
+        how = rng.choice(['integer', 'scaled', 'rotated'])
+        if how == 'scaled':
+            pts = pts * rng.choice([0.1, 3.3, 1.0 / 3.0, 1e3 / 7.0, 2.5e-3])
+        elif how == 'rotated':
+            a = math.radians(rng.choice([30.0, 17.0, 45.0, 60.0, rng.uniform(0, 180)]))
+            pts = pts.dot(np.array([[math.cos(a), math.sin(a)], [-math.sin(a), math.cos(a)]]))
+        wmode = rng.choice([0, 0, 1, 2, 3])
+        wxy = [rng.choice([float(rng.randint(1, 9)), rng.uniform(0.2, 5.0)]) for _ in range(n)] if wmode in (1, 3) else None
+        wuv = [rng.choice([float(rng.randint(1, 9)), rng.uniform(0.2, 5.0)]) for _ in range(n)] if wmode in (2, 3) else None
+        uv = pts
+        xy = uv.dot(np.array([[1.01, -0.02], [0.03, 0.98]])) + np.array([1.0, -2.0])
+        q = guard_ratio(uv.tolist(), harmonic_weights(n, wxy, wuv))
+        case = {'op': 'degenerate', 'fitgeom': 'general', 'kind': 'collinear-' + how, 'uv': uv.tolist(),
+                'wxy': wxy, 'wuv': wuv}
+        ctx.case(case, nontrivial=True, branch='degenerate:general:collinear-%s:w%d' % (how, wmode))
+        if guard_expect(q) != 'singular':
+            ctx.near_tie()
+            continue
+        a1 = None if wxy is None else np.array(wxy)
+        a2 = None if wuv is None else np.array(wuv)
+        for name, call in (('fit_general', lambda: linearfit.fit_general(xy, uv, a1, a2)),
+                           ('iter_linear_fit', lambda: linearfit.iter_linear_fit(xy, uv, a1, a2, fitgeom='general',
+                                                                                 nclip=rng.choice([0, 3])))):
+            try:
+                fit = call()
+                got = 'returned matrix %s' % np.asarray(fit['matrix'], dtype=float).tolist()
+            except linearfit.SingularMatrixError:
+                continue
+            except Exception as e:  # noqa
+                got = type(e).__name__
+            ctx.oracle_fail(case, {'what': '%s: points collinear to within rounding (guard quantity %.3g, below '
+                                           '2^-52/64) were not refused with SingularMatrixError'
+                                           % (name, float(q)), 'got': got})
+            break
 
 
 def weighted_degenerate_fits(ctx):
@@ -508,6 +576,7 @@ def run(ctx):
     outs = ctx.driver(lines)
     compare(ctx, outs, pending)
     degenerate_fits(ctx)
+    collinear_generic_fits(ctx)
     weighted_degenerate_fits(ctx)
 
 
